@@ -461,7 +461,7 @@ func makeHostile(r *Rng, w *GenWorld) {
 		return ip
 	}
 	defer func() { w.Shape += spelled }()
-	switch r.Intn(13) {
+	switch r.Intn(15) {
 	case 0: // self import
 		w.Shape = "hostile:self"
 		w.Set(main, []byte(fmt.Sprintf("import me %q\n", relImport(main, main))+body(main)))
@@ -508,6 +508,14 @@ func makeHostile(r *Rng, w *GenWorld) {
 		w.Set("ca.tsh", []byte(fmt.Sprintf("import b %q\nfunc A() {\n}\n", relImport("ca.tsh", "cb.tsh"))))
 		w.Set("cb.tsh", []byte(fmt.Sprintf("import a %q\nfunc B() {\n}\n", relImport("cb.tsh", "ca.tsh"))))
 		w.Set(main, []byte(fmt.Sprintf("import (\n\tca %q\n)\n", relImport(main, "ca.tsh"))+body(main)))
+	case 13, 14: // a path the kernel refuses with something other than "no such file": through a regular file, too long, with a NUL byte
+		w.Shape = "hostile:oddpath"
+		w.Set(other, []byte("func X() {\n}\n"))
+		rel := relImport(main, other)
+		p := r.Pick([]string{rel + "/x", rel + "/", rel + "/.", rel + "/../" + rel, strings.Repeat("n", 300) + ".tsh", "d/" + strings.Repeat("n", 256), "a\x00b.tsh", MountMark + "/" + main + "/", MountMark + "/" + other + "/x.tsh",
+			strings.Repeat("deep/", 900) + "x.tsh", ".", "..", "/", "//", "./", "~/x.tsh", "C:\\x.tsh"})
+		alias := r.Pick([]string{"o ", "o ", ""})
+		w.Set(main, []byte(fmt.Sprintf("import %s%q\n", alias, p)+body(main)))
 	case 8: // import header garbage
 		w.Shape = "hostile:header"
 		w.Set(main, []byte(r.Pick([]string{"import (\n", "import (\n\tx\n)\n", "import\n", "import ( x \"h1.tsh\" )\n", "import (\n\t\"\"\n)\n", "import \"\"\n", "import x \"/\"\n", "import x \"..\"\n"})+body(main)))
